@@ -146,7 +146,11 @@ func (w *When) In(specArgsOrExprs ...interface{}) *When {
 func (w *When) Return(value ...interface{}) *When {
 	if w.curMatch != nil {
 		w.curMatch.AddResult(value)
-		w.matches = append(w.matches, w.curMatch)
+		// the default matcher is consulted after all conditions by invoke; listing it among
+		// the conditions would shadow every condition registered later
+		if w.curMatch != w.defaultReturns {
+			w.matches = append(w.matches, w.curMatch)
+		}
 		return w
 	}
 
